@@ -215,8 +215,8 @@ def impl_dump(fn):
     gen = fn.newFilename
     fr = gen.gi_frame
     if fr is None:
-        g = 'finished'
-        passes = 0
+        # a finished generator reads nothing any more: __next__ finds it exhausted and returns None
+        return ('finished',), 0
     else:
         loc = fr.f_locals
         if 'num' not in loc:
@@ -234,10 +234,11 @@ def impl_dump(fn):
     return (g, tuple(sorted(fn.variables.items())), tuple(sorted(fn.invalid)), tuple(map(repr, fn.files))), passes
 
 
-def replay_impl(t, charsub, reserved, history, sp, limit=2.0):
+def replay_impl(t, charsub, reserved, history, sp, limit=2.0, spec=None):
     """Replay a history on a fresh object.  -> (results, dump, passes, invariant error or None)"""
     from plasTeX.Filenames import Filenames
-    spec = print_template(t, sp)
+    if spec is None:
+        spec = print_template(t, sp)
     cs = CHARSUBS[charsub]
     inv = dict((n, None) for n in reserved) or None
     results = []
@@ -372,10 +373,13 @@ def run_block(block):
     cfg = model_config(t, charsub, reserved)
     long_family = bool(block.get('long'))
     order = dev_sets(t, charsub, long_family)
-    events = block['events']
+    events = [tuple(e) for e in block['events']]
     ev_b = [bindings(e) for e in events]
     cfgid = (block['tindex'], charsub, tuple(reserved), long_family)
     root_models = tuple((d, M.initial_state(cfg)) for d in order)
+    spec = print_template(t, sp)
+    memo = {}
+    cfgh = hash(cfgid)
     frontier = [((), root_models, ())]
     seen = set()
     rep.states += 1
@@ -386,12 +390,12 @@ def run_block(block):
             for ei in range(len(events)):
                 ev = events[ei]
                 h2 = hist + (ev,)
-                obs, dump, passes, bad = replay_impl(t, charsub, reserved, h2, sp)
+                obs, dump, passes, bad = replay_impl(t, charsub, reserved, h2, sp, spec=spec)
                 rep.traces += 1
                 rep.transitions += 1
                 strict_before = models[0][1] if models and models[0][0] == 0 else None
                 nontrivial = True if strict_before is None else past_static(cfg, strict_before, t)
-                rep.case(key=(cfgid, h2), nontrivial=nontrivial, outcome=(cfgid, tuple(obs)))
+                rep.case(key=hash((cfgh, h2)), nontrivial=nontrivial, outcome=hash((cfgh, tuple(obs))))
                 case = None
                 if tuple(obs[:-1]) != obs_before:
                     rep.violation(make_case(block, h2), list(obs_before), obs[:-1],
@@ -412,7 +416,11 @@ def run_block(block):
                 new_models = []
                 b = ev_b[ei]
                 for d, st in models:
-                    r, st2 = M.request(cfg, d, st, b)
+                    mk = (d, st, ei)
+                    rs = memo.get(mk)
+                    if rs is None:
+                        rs = memo[mk] = M.request(cfg, d, st, b)
+                    r, st2 = rs
                     if r == last:
                         new_models.append((d, st2))
                 if not new_models:
@@ -434,7 +442,7 @@ def run_block(block):
                     rep.count('result_None')
                 else:
                     rep.count('result_' + last)
-                if level >= 2:
+                if level >= 2 and len(rep.samples) < rep.MAX_SAMPLES:
                     rep.sample({'template': print_template(t, sp), 'charsub': charsub, 'reserved': reserved,
                                 'requests': [bindings(e) for e in h2], 'results': obs})
                 key = (dump, tuple(new_models))
